@@ -97,6 +97,28 @@ fn main() {
         std::thread::Builder::new().stack_size(64 << 20).spawn(genstats).unwrap().join().unwrap();
         return;
     }
+    if let Some(k) = env("OALSIM_PROBE_EVENT") {
+        // Attribution probe: does a *fresh* server survive the texts reached at event k?
+        let seed = env_u64("OALSIM_SEED", 1);
+        let run = env_u64("OALSIM_PROBE_RUN", 0);
+        let k: usize = k.parse().unwrap_or(0);
+        let scn = match prop.as_str() {
+            "C15" => c15::scenario_of("C15", hist::Sem::None, seed, run),
+            "C17" => c15::scenario_of("C17", hist::Sem::C17, seed, run),
+            "C18" => c15::scenario_of("C18", hist::Sem::C18, seed, run),
+            _ => std::process::exit(2),
+        };
+        match lsp_sim::probe(&scn, k) {
+            None => {
+                println!("fresh-alive");
+                std::process::exit(0)
+            }
+            Some(d) => {
+                println!("fresh-dead {d}");
+                std::process::exit(3)
+            }
+        }
+    }
     if let Some(path) = env("OALSIM_REPLAY") {
         let text = std::fs::read_to_string(&path).unwrap_or_else(|e| {
             eprintln!("oalsim: cannot read {path}: {e}");
